@@ -166,16 +166,26 @@ def same_set(cond: Cond, op, parts):
     return a == b
 
 
+def both_polarities(facts):
+    """every decided fact in both spellings: (c, v) and (not c, not v) - `if not all(x > 0)` and `if any(x <= 0)` are the
+    same guard, whichever way the source writes it"""
+    for c, v in facts:
+        yield c, v
+        n = c.neg()
+        if n.key != c.key:
+            yield n, (not v)
+
+
 def fired(path: Path, pred):
-    """facts (cond, value) of the path with pred(cond) true"""
-    return [(c, v) for c, v in path.facts if pred(c)]
+    """facts (cond, value) of the path with pred(cond) true (either spelling)"""
+    return [(c, v) for c, v in both_polarities(path.facts) if pred(c)]
 
 
 def guard_outcomes(paths, pred, want_true=True):
-    """paths on which a guard matching pred evaluated to want_true"""
+    """paths on which a guard matching pred evaluated to want_true (the guard may be spelled negated in the source)"""
     out = []
     for p in paths:
-        for c, v in p.facts:
+        for c, v in both_polarities(p.facts):
             if pred(c) and v == want_true:
                 out.append(p)
                 break
@@ -395,3 +405,43 @@ def check_jit_neutral(ctx, rule):
                         ctx.check(ok, rule, f"soft_import|default-{k.value}@{node.lineno}", f"{m.relpath}:{v.lineno}", f"default {k.value} = {_a.unparse(v)[:70]}", expected=f"{k.value} defaults to False (opt-in through the environment only)")
     ctx.expect_min(rule + " (decorated kernels)", n, 20)
     ctx.expect_min(rule + " (soft-import defaults)", n_def, 4)
+
+
+def return_exprs(func):
+    """the expressions a function returns, one per `return`; a returned local name that is assigned exactly once in the
+    function is replaced by the assigned expression (`r = (a, b); return r` is read as `return a, b`)"""
+    import ast as _a
+
+    assigns = {}
+    for n in _a.walk(func.node):
+        if isinstance(n, _a.Assign) and len(n.targets) == 1 and isinstance(n.targets[0], _a.Name):
+            assigns.setdefault(n.targets[0].id, []).append(n.value)
+        elif isinstance(n, (_a.AugAssign, _a.AnnAssign)) and isinstance(n.target, _a.Name):
+            assigns.setdefault(n.target.id, []).append(None)
+        elif isinstance(n, (_a.For, _a.comprehension)):
+            for t in _a.walk(n.target):
+                if isinstance(t, _a.Name):
+                    assigns.setdefault(t.id, []).append(None)
+    out = []
+    for n in _a.walk(func.node):
+        if isinstance(n, _a.Return) and n.value is not None:
+            v = n.value
+            seen = 0
+            while isinstance(v, _a.Name) and len(assigns.get(v.id, [])) == 1 and assigns[v.id][0] is not None and seen < 4:
+                v = assigns[v.id][0]
+                seen += 1
+            out.append(v)
+    return out
+
+
+def mark(ex, name):
+    """drop a named marker into the event log of the path being executed (scenario phases: init / fit / evaluate)"""
+    ex.emit("marker", None, name=name)
+
+
+def mark_index(path, name):
+    """position of the marker in this path's own event log (offsets differ from path to path); len(events) if absent"""
+    for i, e in enumerate(path.events):
+        if e.kind == "marker" and e.data.get("name") == name:
+            return i
+    return len(path.events)
